@@ -338,6 +338,29 @@ def _missing_occurs(params):
     return bool(params.get("missing")) and ("[" + params["missing"] + "]") in H4_EXPRS[params["expr"]]
 
 
+def _h4_pairing_violation(item, base):
+    """H4 only: the zero-yield result itself must be the tree of the textually substituted expression (R6), compared after
+    flattening U/O/X runs (I3)"""
+    if item["h"] != "H4" or item["params"].get("missing"):
+        return None
+    from mc.ref import condparse as R2
+    from mc.ref import subst as R6
+
+    expr = H4_EXPRS[item["params"]["expr"]]
+    via_resolver = item["params"].get("via") == "resolver"
+    sub = R6.substitute(expr, H4_PACKAGES, True, via_resolver)
+    ops = ("or_composition", "xor_composition", "and_composition")
+    want = R2.flatten(_I.tree_to_tuple(_I.run(_I.parse_expression_including_unresolved_subexpressions(
+        sub, resolve_packages=False, replace_time_conditions=False), _I.Env())), ops)
+    got = json.loads(base)
+    if got[0] != "tree":
+        return (repr(want)[:300], got)
+    import ast
+
+    got_tree = R2.flatten(ast.literal_eval(got[1]), ops)
+    return None if got_tree == want else (repr(want)[:400], repr(got_tree)[:400])
+
+
 def _observe(ex):
     if ex.exception is not None:
         return json.dumps(["exception", type(ex.exception).__name__])
@@ -368,6 +391,10 @@ def run_item(item):
     if item["order_bound"] is not None:
         r.stat("deviation_bounded_harnesses")
     r.outcomes.add((item["h"], json.dumps(item["params"], sort_keys=True), len(exp.outcomes)))
+    pairing = _h4_pairing_violation(item, base)
+    if pairing:
+        r.violation("occurrence-paired-with-wrong-value", {"h": item["h"], "params": item["params"], "choices": []}, pairing[0], pairing[1],
+                    "every package occurrence must be replaced by the expression produced for it (reference: textual substitution R6)")
     if _missing_occurs(item["params"]) and base != json.dumps(["NotImplementedError"]):
         r.violation("missing-package-unnoticed", {"h": item["h"], "params": item["params"], "choices": []}, "NotImplementedError", base)
     for out, n in exp.outcomes.items():
@@ -388,6 +415,9 @@ def replay(case):
     ex = vloop.run_schedule(HARNESS[case["h"]](case["params"], False), case["choices"])
     out = _observe(ex)
     vs = []
+    pairing = _h4_pairing_violation(item, base)
+    if pairing:
+        vs.append({"kind": "occurrence-paired-with-wrong-value", "case": case, "expected": pairing[0], "observed": pairing[1]})
     if _missing_occurs(case["params"]) and base != json.dumps(["NotImplementedError"]):
         vs.append({"kind": "missing-package-unnoticed", "case": case, "expected": "NotImplementedError", "observed": base})
     if out != base:
